@@ -167,15 +167,17 @@ def joinLines : List (List Char) → List Char
   | [l] => l
   | l :: ls => l ++ '\n' :: joinLines ls
 
+/-- remove the common indentation (`none` = null: nothing to remove) from every line -/
+def stripIndent : Option Nat → List (List Char) → List (List Char)
+  | none, ls => ls
+  | some n, ls => ls.map (·.drop n)
+
 /-- `BlockStringValue(rawValue)` -/
 def blockStringValue (raw : List Char) : List Char :=
   match splitLines raw with
   | [] => []
   | first :: others =>
-    let others' := match commonIndent others with
-      | none => others
-      | some n => others.map (·.drop n)
-    joinLines (dropTrailingBlank (dropLeadingBlank (first :: others')))
+    joinLines (dropTrailingBlank (dropLeadingBlank (first :: stripIndent (commonIndent others) others)))
 
 /-- the value of the text `lit` read as exactly one `StringValue` token -/
 def decodeStringLiteral : List Char → Option (List Char)
